@@ -162,6 +162,7 @@ def main():
     ap.add_argument("--no-tests", action="store_true")
     ap.add_argument("--scratch", action="store_true", help="use a scratch copy + VERIF_REPO instead of applying to /repo")
     ap.add_argument("--only", help="comma separated seed ids for sweep")
+    ap.add_argument("--jobs", type=int, default=1, help="sweep --scratch: changes checked concurrently (each on its own scratch copy)")
     a = ap.parse_args()
     if a.cmd == "adopt":
         adopt(a.target, a.id, a.prop, a.verify_json)
@@ -173,6 +174,31 @@ def main():
         print(json.dumps(fn(a.target, a.tier, a.props.split(",") if a.props else None, a.seeds.split(",")), indent=1))
     else:
         rows = []
+        if a.scratch and a.jobs > 1:
+            from concurrent.futures import ThreadPoolExecutor
+
+            todo = []
+            for d in sorted(glob.glob(os.path.join(SEEDED, "*", "meta.json"))):
+                sid = os.path.basename(os.path.dirname(d))
+                if a.only and sid not in a.only.split(","):
+                    continue
+                if json.load(open(d)).get("breaks_property") is False:
+                    rows.append((sid, "N/A", "kept for the record; does not break the property as stated (see meta.json)"))
+                    continue
+                todo.append(sid)
+
+            def one(sid):
+                r = run_scratch(sid, a.tier, None, a.seeds.split(","))
+                caught = any(v["exit"] == 1 for v in r["results"].values())
+                row = (sid, "CAUGHT" if caught else "MISSED", next((v["failure"] for v in r["results"].values() if v["failure"]), ""))
+                print(row, flush=True)
+                return row
+
+            with ThreadPoolExecutor(a.jobs) as ex:
+                rows += list(ex.map(one, todo))
+            rows.sort()
+            print(f"{sum(1 for r in rows if r[1] == 'CAUGHT')}/{sum(1 for r in rows if r[1] != 'N/A')} caught")
+            return 0
         for d in sorted(glob.glob(os.path.join(SEEDED, "*", "meta.json"))):
             sid = os.path.basename(os.path.dirname(d))
             if a.only and sid not in a.only.split(","):
